@@ -153,7 +153,13 @@ def load_known(prop):
 
 
 def match_known(known, unit_name, vc_name, path):
+    import re
+
     for f in known:
+        if "obligation_regex" in f:
+            if re.search(f["obligation_regex"], vc_name) and re.search(f.get("unit_regex", "."), unit_name):
+                return f
+            continue
         if f.get("obligation") == vc_name and f.get("unit", unit_name) in (unit_name, None):
             pat = f.get("path_contains")
             anyp = f.get("path_contains_any")
